@@ -7,12 +7,14 @@
 
 package netpoll
 
+//@ import errorx "github.com/panjf2000/gnet/v2/pkg/errors"
 //@ func (p *Poller) AddRead(pa *PollAttachment, edgeTriggered bool) (err error)
 //@   noverify epoll_ctl wrapper with bit-level event masks
 //@   requires p != nil && pa != nil && owner[pa.FD] != nil
 //@   modifies polled[pa.FD], armed[pa.FD]
 //@   ensures err == nil ==> polled[pa.FD] && !armed[pa.FD]
 //@   ensures err != nil ==> polled[pa.FD] == old(polled[pa.FD]) && armed[pa.FD] == old(armed[pa.FD])
+//@   ensures err != errorx.ErrEngineShutdown
 //
 //@ func (p *Poller) AddReadWrite(pa *PollAttachment, edgeTriggered bool) (err error)
 //@   noverify epoll_ctl wrapper with bit-level event masks
@@ -20,6 +22,7 @@ package netpoll
 //@   modifies polled[pa.FD], armed[pa.FD]
 //@   ensures err == nil ==> polled[pa.FD] && armed[pa.FD]
 //@   ensures err != nil ==> polled[pa.FD] == old(polled[pa.FD]) && armed[pa.FD] == old(armed[pa.FD])
+//@   ensures err != errorx.ErrEngineShutdown
 //
 //@ func (p *Poller) ModRead(pa *PollAttachment, edgeTriggered bool) (err error)
 //@   noverify epoll_ctl wrapper with bit-level event masks
@@ -27,6 +30,7 @@ package netpoll
 //@   modifies armed[pa.FD]
 //@   ensures err == nil ==> !armed[pa.FD]
 //@   ensures err != nil ==> armed[pa.FD] == old(armed[pa.FD])
+//@   ensures err != errorx.ErrEngineShutdown
 //
 //@ func (p *Poller) ModReadWrite(pa *PollAttachment, edgeTriggered bool) (err error)
 //@   noverify epoll_ctl wrapper with bit-level event masks
@@ -34,12 +38,14 @@ package netpoll
 //@   modifies armed[pa.FD]
 //@   ensures err == nil ==> armed[pa.FD]
 //@   ensures err != nil ==> armed[pa.FD] == old(armed[pa.FD])
+//@   ensures err != errorx.ErrEngineShutdown
 //
 //@ func (p *Poller) Delete(fd int) (err error)
 //@   noverify epoll_ctl wrapper
 //@   requires p != nil && owner[fd] != nil
 //@   modifies polled[fd], armed[fd]
 //@   ensures err == nil ==> !polled[fd] && !armed[fd]
+//@   ensures err != errorx.ErrEngineShutdown
 //
 // Trigger: the task is queued for the loop that owns the poller and runs there later, once (property C03, assumed).
 // trigprio: priority class of the request queued last (bookkeeping ghost): requests of one class are executed in issue order.
@@ -49,3 +55,4 @@ package netpoll
 //@   requires p != nil
 //@   modifies trigprio
 //@   ghostdef trigprio := priority
+//@   ensures err != errorx.ErrEngineShutdown
